@@ -42,6 +42,7 @@ class Scheduler:
         self.trace = []          # labels in the order performed
         self.branching = []      # number of enabled actions at each step (for DFS enumeration)
         self.frozen = False      # when frozen nothing is released (quiescence probing)
+        self.freeze_gates = False  # after a stop action: outstanding awaitables are no longer completed
         self.max_steps = max_steps
         self.loop = None
         self.on_step = None      # optional callback(label) right before an action is performed
@@ -62,7 +63,8 @@ class Scheduler:
         self.externals[label] = fn
 
     def enabled(self):
-        out = [('gate', l) for l, f in self.gates.items() if not f.done()]
+        # after a stop only the consumer's own steps ('pull#k') stay enabled, never the executor's outstanding awaitables
+        out = [('gate', l) for l, f in self.gates.items() if not f.done() and (not self.freeze_gates or l.startswith('pull#'))]
         out += [('ext', l) for l in self.externals]
         return out
 
@@ -147,6 +149,23 @@ class Run:
                 pass
             self.warnings += [str(x.message)[:160] for x in w]
         return self.pending_after_quiescence
+
+    def drain(self):
+        """Let every still outstanding harness awaitable complete (FIFO) and drive the loop to idleness again."""
+        self.sched.frozen = False
+        self.sched.freeze_gates = False
+        self.sched.policy = 'fifo'
+        self.sched.script = []
+        with warnings.catch_warnings(record=True) as w:
+            warnings.simplefilter('always')
+            try:
+                self.loop.run_until_complete(self.loop.create_future())
+            except Deadlock:
+                pass
+            except BaseException:  # noqa: BLE001
+                pass
+            self.warnings += [str(x.message)[:160] for x in w]
+        return [t for t in asyncio.all_tasks(self.loop) if not t.done()]
 
     def close(self):
         """Cancel whatever is left, close the loop, collect garbage so destroy-time reports fire now."""
